@@ -38,6 +38,7 @@ expected from the project layout.
 """
 import json
 import os
+import re
 import shutil
 import tempfile
 import time
@@ -185,7 +186,7 @@ class Dtd(Fmt):
 
 class Ftl(Fmt):
     name, ext = "ftl", ".ftl"
-    viols = ("mochi", "dupattr", "dupvar", "attrs", "term-attrs")
+    viols = ("mochi", "dupattr", "dupvar", "attrs", "term-attrs", "selref", "ref", "attr-selref")
 
     def key_of(self, rec):
         return ("-" if rec.get("term") else "") + rec["key"]
@@ -203,6 +204,15 @@ class Ftl(Fmt):
             checks = [("warning", 'Variant key "one" is duplicated')] * 2
         elif viol in ("attrs", "term-attrs"):
             attrs = [("a", rec["val2"])]
+        elif viol == "selref":
+            # well-formed: term and message references inside select variants; against itself
+            # nothing is missing or obsolete
+            v = ("{ $n ->\n    [one] %s { -brand } one\n   *[other] %s { -brand } { other-msg.title }\n  }"
+                 % (v, v))
+        elif viol == "ref":
+            v = "%s { -brand } and { other-msg } { $var }" % v
+        elif viol == "attr-selref":
+            attrs = [("a", "{ $n ->\n        [one] %s { -brand }\n       *[other] { msg-two }\n      }" % v)]
         return v, attrs, checks
 
     def value(self, rec):
@@ -1288,9 +1298,12 @@ def suite_inc_sequence(chk, model, tmp):
 
 # ------------------------------------------- a project, real entry point ---
 def suite_project(chk, model, tmp):
-    """moz-l10n-lint's reference-project mode end to end: a project configuration with 2-4
-    `paths` entries (each its own subtree and `test` annotation), files enumerated by
-    ProjectFiles.iter_reference, references found by mirror_reference_and_tests; every file
+    """moz-l10n-lint end to end, in reference-project and in l10n-reference mode: a project
+    configuration with 2-4 `paths` entries (each its own subtree, l10n location and `test`
+    annotation), sometimes behind a generic entry that overlaps them all (the last configured
+    entry that matches decides the reference location and the tests), files enumerated by
+    ProjectFiles.iter_reference, references found by mirror_reference_and_tests /
+    l10n_base_reference_and_tests; every file
     has exactly one string changed in the reference project, so every file gets exactly one
     changed-ID warning whichever entry covers it.  Both L10nLinter().lint as lint/cli.py
     drives it and lint.cli.main() itself (printed lines, return code)."""
@@ -1307,16 +1320,29 @@ def suite_project(chk, model, tmp):
         proj = os.path.join(tmp, "j%d" % i)
         refroot = os.path.join(tmp, "j%d-ref" % i)
         subs = rng.sample(["browser", "toolkit", "mobile", "devtools", "dom"], rng.randint(2, 4))
+        how = rng.choice(["mirror", "l10n-base"])
+        base = os.path.join(tmp, "j%d-base" % i)
+        # sometimes a generic entry FIRST that overlaps all the specific ones (the last
+        # configured entry that matches wins): other l10n location, other tests
+        overlap = rng.random() < 0.5
         toml = 'basepath = "."\nlocales = ["de"]\n'
         tests_of = {}
+        if overlap:
+            tests_of[None] = rng.choice([None, ["other"]])
+            toml += '[[paths]]\n    reference = "en/**"\n    l10n = "{l10n_base}/{locale}/**"\n'
+            if tests_of[None] is not None:
+                toml += "    test = %s\n" % json.dumps(tests_of[None])
         for sub in subs:
             tests_of[sub] = rng.choice([None, ["android-dtd"], ["android-dtd", "other"]])
-            toml += '[[paths]]\n    reference = "en/%s/**"\n    l10n = "{l10n_base}/{locale}/%s/**"\n' % (sub, sub)
+            toml += ('[[paths]]\n    reference = "en/%s/**"\n    l10n = "{l10n_base}/{locale}/x-%s/**"\n'
+                     % (sub, sub))
             if tests_of[sub] is not None:
                 toml += "    test = %s\n" % json.dumps(tests_of[sub])
         write_file(os.path.join(proj, "l10n.toml"), toml, rng)
+        os.makedirs(os.path.join(base, "de"), exist_ok=True)
         descr = []
-        for sub in subs:
+        for sub in subs + (["generic-only"] if overlap else []):
+            entry = sub if sub in tests_of else None
             for j in range(rng.randint(1, 2)):
                 fmt = rng.choice(fmts)
                 keys = rng.sample(KEYS, rng.randint(2, 4))
@@ -1325,25 +1351,41 @@ def suite_project(chk, model, tmp):
                 recs = [{"t": "ent", "key": k, "val": "v%d" % n, "val2": "w", "viol": None,
                          "comment": rng.random() < 0.2, "sep": " = ", "term": False}
                         for n, k in enumerate(keys)]
+                if fmt.name == "dtd" and "android-dtd" in (tests_of[entry] or []) and rng.random() < 0.6:
+                    recs[0]["viol"] = "apos"     # an error only the entry's android-dtd test finds
+                if fmt.name == "ftl" and rng.random() < 0.5:
+                    recs[0]["viol"] = rng.choice(["selref", "ref", "attr-selref"])
                 text, info = print_file(fmt, recs)
-                rel = os.path.join("en", sub, rng.choice(["", "deep/"]) + "f%d%s" % (j, fmt.ext))
+                inner = rng.choice(["", "deep/"]) + "f%d%s" % (j, fmt.ext)
+                rel = os.path.join("en", sub, inner)
                 path = os.path.join(proj, rel)
                 write_file(path, text, rng)
                 ref_recs = [dict(r) for r in recs]
                 ref_recs[-1]["val"] = "changed"                  # the one changed string
                 ref_text, _ = print_file(fmt, ref_recs)
-                ref_path = os.path.join(refroot, rel)
+                if how == "mirror":
+                    ref_path = os.path.join(refroot, rel)
+                elif entry is None:
+                    ref_path = os.path.join(base, "de", sub, inner)
+                else:
+                    ref_path = os.path.join(base, "de", "x-" + sub, inner)
                 write_file(ref_path, ref_text, rng)
                 descr.append({"fmt": fmt.name, "path": path, "rel": rel, "ref": ref_path, "text": text,
-                              "ref_text": ref_text, "mode": "file", "extra": tests_of[sub],
+                              "ref_text": ref_text, "mode": "file", "extra": tests_of[entry],
                               "expected": expected_results(fmt, recs, text, info, ref_recs)})
         if rng.random() < 0.4:
             write_file(os.path.join(proj, "en", subs[0], "README.txt"), "k = v\nk = w\n", rng)
         with_w = rng.random() < 0.5
         # 1. the steps of lint/cli.py with the real functions
-        pc = paths.TOMLParser().parse(os.path.join(proj, "l10n.toml"), env={"l10n_base": "."})
-        pf = paths.ProjectFiles(None, [pc])
-        getref = util.mirror_reference_and_tests(pf, refroot)
+        if how == "mirror":
+            pc = paths.TOMLParser().parse(os.path.join(proj, "l10n.toml"), env={"l10n_base": "."})
+            pf = paths.ProjectFiles(None, [pc])
+            getref = util.mirror_reference_and_tests(pf, refroot)
+        else:
+            pc = paths.TOMLParser().parse(os.path.join(proj, "l10n.toml"), env={"l10n_base": base})
+            pc.set_locales(["de"], deep=True)
+            pf = paths.ProjectFiles("de", [pc])
+            getref = util.l10n_base_reference_and_tests(pf)
         files = [f for f, _, _, _ in pf.iter_reference() if parser.hasParser(f)]
         got = run_impl(lambda: impl_dicts(L10nLinter().lint(iter(files), getref)))
         if sorted(files) != sorted(d["path"] for d in descr):
@@ -1356,7 +1398,7 @@ def suite_project(chk, model, tmp):
             ref, tests = getref(d["path"])
             # an entry without `test` gives an empty collection of tests
             if ref != d["ref"] or sorted(tests or []) != sorted(d["extra"] or []):
-                chk.fail("lint-reference-path", {"how": "project", "toml": toml, "path": d["rel"]},
+                chk.fail("lint-reference-path", {"how": "project " + how, "toml": toml, "path": d["rel"]},
                          {"got": [None if ref is None else os.path.relpath(ref, tmp), repr(tests)],
                           "expected": [os.path.relpath(d["ref"], tmp), d["extra"]]})
             case = dict(describe(d), toml=toml, path=d["rel"])
@@ -1384,7 +1426,8 @@ def suite_project(chk, model, tmp):
         try:
             os.chdir(proj)
             sys.argv = ["moz-l10n-lint"] + (["-W"] if with_w else []) + \
-                ["--reference-project", refroot, "l10n.toml"]
+                (["--reference-project", refroot] if how == "mirror" else
+                 ["--l10n-reference", os.path.join(base, "de")]) + ["l10n.toml"]
             with contextlib.redirect_stdout(out):
                 rv = run_impl(cli.main)
         finally:
@@ -1393,21 +1436,27 @@ def suite_project(chk, model, tmp):
         exp_lines, any_error = [], False
         for d in sorted(descr, key=lambda d: d["path"]):
             for (l, c, lvl, msg) in d["expected"]:
-                exp_lines.append("%s (%d:%d): %s" % (d["rel"], l, c, msg))
+                # the position of a checker result is not fixed by the oracle
+                exp_lines.append("%s (%s): %s" % (d["rel"], "*" if l is None else "%d:%d" % (l, c), msg))
                 any_error = any_error or lvl == "error"
         exp_rv = 1 if (any_error or (with_w and exp_lines)) else 0
         lines = out.getvalue().splitlines()
-        if rv != [0, exp_rv] or lines != exp_lines:
-            chk.fail("project-cli", {"toml": toml, "W": with_w,
+        same = len(lines) == len(exp_lines) and all(
+            g == e or ("(*)" in e and re.fullmatch(re.escape(e).replace(r"\(\*\)", r"\(\d+:\d+\)"), g))
+            for g, e in zip(lines, exp_lines))
+        if rv != [0, exp_rv] or not same:
+            chk.fail("project-cli", {"toml": toml, "W": with_w, "how": how,
                                      "files": [[d["rel"], d["text"], d["ref_text"]] for d in descr]},
                      {"got": [rv, lines], "expected": [exp_rv, exp_lines]})
         chk.count(("project", toml, [(d["rel"], d["text"]) for d in descr]))
-        chk.hist("project_entries", len(subs))
+        chk.hist("project_entries", len(subs) + int(overlap))
+        chk.hist("project_mode", how + (" overlapping" if overlap else ""))
         if i == 1:
             chk.sample({"suite": "LINT-project", "toml": toml, "files": [d["rel"] for d in descr],
                         "cli output": lines, "cli rv": rv})
         shutil.rmtree(proj, ignore_errors=True)
         shutil.rmtree(refroot, ignore_errors=True)
+        shutil.rmtree(base, ignore_errors=True)
     if model:
         outs = model.call(reqs, chunk=200)
         outs = [w.decode(o, True) for w, o in zip(wires, outs)]
